@@ -478,7 +478,6 @@ def random_programs(n, seed, verbose):
             side.update(maps[side], key, value)
             mine = patch_map_fd(code, maps[side])
             try:
-                t0 = time.perf_counter()
                 fd = side.prog_load(mine)
             except OSError as e:
                 if side is sim:
@@ -488,9 +487,15 @@ def random_programs(n, seed, verbose):
                 results = None
                 reasons[e.errno] = reasons.get(e.errno, 0) + 1
                 if verbose:
-                    log = ebpfcat.bpf.prog_load(ProgType.XDP, mine, "GPL")
+                    try:
+                        ebpfcat.bpf.prog_load(ProgType.XDP, mine, "GPL",
+                                              log_level=1, log_size=1 << 20)
+                    except OSError as e2:
+                        print(f"program {no} rejected:",
+                              "\n".join(str(e2).splitlines()[-4:]))
                 break
             try:
+                t0 = time.perf_counter()
                 retval, out = side.test_run(fd, packet)
             except CpuFault as e:
                 raise Mismatch(f"random program {no}: interpreter fault {e}\n"
@@ -641,6 +646,10 @@ def sc_hashtable():
         def program(self):
             self.ht1.key.keyB = self.ar
             self.ht1.key.keyI = 7
+            # the original leaves `filler` unwritten: an old verifier
+            # refuses that, a new one passes stack garbage to the helper,
+            # SimCPU faults
+            self.ht1.value.filler = 0
             self.ht1.value.valueB = 3
             self.ht1.value.valueI = 9
             self.ht1.update()
@@ -656,10 +665,12 @@ def sc_hashtable():
                 self.ar = 7
             self.exit()
 
+    # the program exits with whatever is in r0, on one path a pointer: the
+    # return value is not part of the comparison
     obs = []
     e = Program(ProgType.XDP, "GPL")
     e.load(log_level=1)
-    obs.append(lib_test_run(e.file_descriptor, PACKET))
+    obs.append(lib_test_run(e.file_descriptor, PACKET)[1])
     obs.append(e.ar)
     assert e.ar == 7
     k = Key()
@@ -677,7 +688,7 @@ def sc_hashtable():
     except KeyError:
         obs.append("KeyError")
     e.ar = 5
-    obs.append(lib_test_run(e.file_descriptor, PACKET))
+    obs.append(lib_test_run(e.file_descriptor, PACKET)[1])
     v = e.ht2[k]
     obs.append(bytes(v.data))
     assert (v.valueB, v.valueI) == (5, 8)
@@ -692,7 +703,7 @@ def sc_hashtable():
     except IndexError:
         obs.append("IndexError")
     e.ar = 100
-    obs.append(lib_test_run(e.file_descriptor, PACKET))
+    obs.append(lib_test_run(e.file_descriptor, PACKET)[1])
     obs.append(e.ar)
     assert e.ar == -7
     e.ht2[k] = v
@@ -730,7 +741,7 @@ def sc_localvar():
         map = ArrayMap()
         out = map.globalVar("16q")
         n = map.globalVar("i")
-        x = map.globalVar("x")
+        fx = map.globalVar("x")
 
     obs = []
     e = Local(ProgType.XDP, "GPL")
@@ -741,7 +752,7 @@ def sc_localvar():
     e.d = e.b * 3
     e.e_ = e.d - e.a
     e.f = 2.5
-    e.f = e.f * e.n + e.x
+    e.f = e.f * e.n + e.fx
     e.r0 = e.a + e.b
     e.r2 = e.c >> 7
     e.sr3 = e.e_ >> 1
@@ -752,17 +763,15 @@ def sc_localvar():
         e.r9 = e.n | 0x100
     with Else:
         e.r9 = e.n ^ 0xff
-    with e.get_stack(8) as stack:
-        pass
     for i, r in enumerate((0, 2, 3, 4, 5, 8, 9)):
-        e.mQ[e.r7 + e.__dict__["out"] + 8 * i] = e.r[r]
-    e.mq[e.r7 + e.__dict__["out"] + 8 * 7] = e.f
-    e.mq[e.r7 + e.__dict__["out"] + 8 * 8] = e.d
+        e.mQ[e.r7 + (e.__dict__["out"] + 8 * i)] = e.r[r]
+    e.mq[e.r7 + (e.__dict__["out"] + 8 * 7)] = e.f
+    e.mq[e.r7 + (e.__dict__["out"] + 8 * 8)] = e.d
     e.exit()
     e.load()
     for n, x in ((0, 0.0), (5, 1.25), (-3, -7.5), (1000000, 3.0)):
         e.n = n
-        e.x = x
+        e.fx = x
         obs.append(lib_test_run(e.file_descriptor, PACKET))
         obs.append(bytes(e.map))
     return obs
@@ -782,6 +791,7 @@ def sc_packet():
     class Prog(OwnsContext, XDP):
         license = "GPL"
         minimumPacketSize = 30
+        defaultExitCode = XDPExitCode.TX
 
         vars = ArrayMap()
         count = vars.globalVar("I")
@@ -803,7 +813,6 @@ def sc_packet():
                 self.ethertype = 0x1234
                 self.bits = 5
                 self.pB[26] = self.pB[27] + self.pH[28]
-                self.exit(XDPExitCode.TX)
             with Else:
                 self.pB[14] = 0xee
                 self.exit(XDPExitCode.DROP)
@@ -1136,7 +1145,7 @@ def sim_only():
     k = sim.kernel
     checks = 0
 
-    def faults(name, code, reason, packet=bytes(64), setup=None):
+    def faults(name, code, reason, packet=bytes(64)):
         nonlocal checks
         fd = sim.prog_load(code)
         try:
@@ -1246,11 +1255,6 @@ def sim_only():
     bump = sim.prog_load(
         insn(0x62, 10, 0, -4, 0) + ld64(1, pc, 1) + insn(0xbf, 2, 10)
         + insn(0x07, 2, 0, 0, -4) + insn(0x85, 0, 0, 0, 1)
-        + insn(0x15, 0, 0, 3, 0) + insn(0x85, 0, 0, 0, 8) + insn(0xbf, 6, 0)
-        + insn(0x07, 6, 0, 0, 1) + insn(0xb7, 0, 0, 0, 2) + insn(0x95))
-    bump = sim.prog_load(
-        insn(0x62, 10, 0, -4, 0) + ld64(1, pc, 1) + insn(0xbf, 2, 10)
-        + insn(0x07, 2, 0, 0, -4) + insn(0x85, 0, 0, 0, 1)
         + insn(0x15, 0, 0, 2, 0) + insn(0xb7, 1, 0, 0, 1)
         + insn(0xc3, 0, 1, 0, 0) + insn(0xb7, 0, 0, 0, 2) + insn(0x95))
     for cpu_no in (0, 2, 2, 3):
@@ -1295,7 +1299,6 @@ def sim_only():
     checks += 1
 
     # fd life time: pins, process death, prog array emptied without owner
-    before = sorted(k.fds)
     k.current_pid = 7
     table = sim.create_map(3, 4, 4, 2)
     target = sim.prog_load(EXIT0)
@@ -1309,7 +1312,7 @@ def sim_only():
             assert e.errno == 17
     k.current_pid = 0
     k.close_all(7)
-    if sorted(k.fds) != before:
+    if any(entry.owner == 7 for entry in k.fds.values()):
         raise Mismatch("close_all left descriptors behind")
     with library_on(sim):
         again = ebpfcat.bpf.obj_get("/sys/fs/bpf/x/programs")
@@ -1318,7 +1321,7 @@ def sim_only():
     table_obj = k.obj(again)
     k.unpin("/sys/fs/bpf/x/programs")
     os.close(again)             # behind the simulator's back
-    k.bpf(0, "IIIII", 2, 4, 4, 1, 0)
+    os.close(k.bpf(0, "IIIII", 2, 4, 4, 1, 0)[0])   # any call notices it
     if table_obj.slots[0] is not None or table_obj.urefs != 0:
         raise Mismatch("prog array without user reference was not emptied")
     checks += 1
